@@ -19,6 +19,7 @@ from __future__ import annotations
 __all__ = ["AsyncTCPNetworkServer"]
 
 import contextlib
+import errno as _errno
 import logging
 import weakref
 from collections.abc import AsyncIterator, Callable, Coroutine, Iterator, Mapping, Sequence
@@ -260,6 +261,9 @@ class AsyncTCPNetworkServer(
         def disconnect_error_filter(exc: Exception) -> bool:
             match exc:
                 case ConnectionError():
+                    return True
+                case TimeoutError(errno=_errno.ETIMEDOUT):
+                    # The connection timed out (keep-alive probes, retransmissions): this is not a timeout of the request handler.
                     return True
                 case _:
                     return _utils.is_ssl_eof_error(exc)
